@@ -190,13 +190,15 @@ def judgeReady (c : Cfg) (localState : String) (localTokens : String) (store : O
 def resolveIn (tracked : Option Desc) (s : String) : Option (Option Desc) :=
   if s == "=" then some tracked else parseStore s
 
+/-- only the FIRST disagreement is reported; the replay goes on so that the judge sees the whole history -/
+def setDiff (s : St) (m : String) : St := if s.diff.isSome then s else { s with diff := some m }
+
 /-- one step: model replay (diff) + judge. `crashKinds` are accepted only for C09. -/
 def doStep (s : St) (stepNo : Nat) (f : List String) : St :=
-  if s.diff.isSome && s.diff != some "" then s else
   match f with
   | [idx, ev, arg, fault, now, gen, cas, ret, loc, file] =>
     let s := { s with nsteps := s.nsteps + 1 }
-    let fail (m : String) : St := { s with diff := some s!"step{stepNo}:{m}" }
+    let fail (m : String) : St := setDiff s s!"step{stepNo}:{m}"
     if idx == "E" then
       if ev == "wipe" then
         addFeat { s with store := none, log := { idx := 1000, ev := "wipe", fault := "n", now := now.toInt?.getD 0, before := s.store, after := none, loc := "-", file := "-", ret := "ok", committed := false } :: s.log } "wipe"
@@ -213,7 +215,7 @@ def doStep (s : St) (stepNo : Nat) (f : List String) : St :=
       | some nd =>
         let c := nd.cfg
         if ev == "crash" then
-          let s := if nd.file != ofile then { s with diff := some s!"step{stepNo}:file model={showFile nd.file}" } else s
+          let s := if nd.file != ofile then setDiff s s!"step{stepNo}:file model={showFile nd.file}" else s
           { s with nodes := s.nodes.setIfInBounds i { nd with l := {}, latched := false, jFile := ofile },
                    log := { idx := i, ev := "crash", fault := "n", now := now, before := s.store, after := s.store, loc := "dead", file := file, ret := "ok", committed := false } :: s.log }
         else
@@ -252,7 +254,7 @@ def doStep (s : St) (stepNo : Nat) (f : List String) : St :=
               else if mFile != ofile then some s!"file model={showFile mFile}"
               else if showGenReq r.genReq != implGenReq then some s!"gen model={showGenReq r.genReq}"
               else none
-            let s := match d1 with | some m => { s with diff := some s!"step{stepNo}:{ev}:{m}" } | none => s
+            let s := match d1 with | some m => setDiff s s!"step{stepNo}:{ev}:{m}" | none => s
             -- judge (implementation's own observation)
             let implOut : Option Desc := if outS.startsWith "W" then parseDesc (outS.drop 1).toString else none
             let ndJ : Node := if ev == "init" then
@@ -297,7 +299,7 @@ def doStep (s : St) (stepNo : Nat) (f : List String) : St :=
                      log := { idx := i, ev := ev, fault := fault, now := now, before := s.store, after := store', loc := loc, file := file, ret := ret, committed := committed } :: s.log,
                      nodes := s.nodes.setIfInBounds i { ndJ with l := l', file := mFile, jFile := ofile, latched := if isCrash then false else latched } }
     | _, _, _ => fail "bad-step-fields"
-  | _ => { s with diff := some s!"step{stepNo}:bad-step" }
+  | _ => setDiff s s!"step{stepNo}:bad-step"
 
 def bucket (n : Nat) : String := if n < 8 then "0-7" else if n < 16 then "8-15" else if n < 32 then "16-31" else "32+"
 
